@@ -327,7 +327,10 @@ def p_valid_range(rng):
 
 
 def p_probe(rng):
-    return {"tag": rng.randint(0, 4)}
+    p = {"tag": rng.randint(0, 4)}
+    if rng.chance(0.15):
+        p["tidy"] = True  # writes into the time / depth / position arrays it receives
+    return p
 
 
 # (module, test, params generator, axes it needs)
@@ -565,7 +568,7 @@ def gen_config(rng, tbl, max_ctx=4, max_tests=3, window_layout=None, fault_kinds
                 break
     carrier = rng.pick(CARRIERS)
     wform = rng.pick(WINDOW_FORMS) if carrier in ("dict", "odict") else "iso"
-    if tbl.get("frac_ns") and carrier in ("dict", "odict", "json", "json_path") and wform != "datetime":
+    if tbl.get("frac_ns") and not tbl.get("no_time") and carrier in ("dict", "odict", "json", "json_path") and wform != "datetime":
         # nanosecond-resolution records: window bounds may carry nanoseconds too (spellings that can hold them)
         ns_of = {}  # one sub-second part per bound instant, so that adjacent windows stay adjacent
         for c in contexts:
@@ -577,6 +580,25 @@ def gen_config(rng, tbl, max_ctx=4, max_tests=3, window_layout=None, fault_kinds
                             ns_of[w[b]] = rng.randint(1, 999) if rng.chance(0.6) else 0
                         if ns_of[w[b]]:
                             w[b + "_ns"] = ns_of[w[b]]
+    if tbl.get("frac_ns") and not tbl.get("no_time") and carrier in ("dict", "odict", "json", "json_path") and wform != "datetime" and len(tbl["times"]) and rng.chance(0.5):
+        # two contexts whose windows differ by one nanosecond, with a record exactly on the earlier bound:
+        # they are different windows, however close
+        r = rng.randrange(len(tbl["times"]))
+        if r not in (tbl.get("nat") or []):
+            sec = tbl["times"][r] + ((tbl.get("frac_ms") or [0] * len(tbl["times"]))[r] // 1000)
+            if not (tbl.get("frac_ms") or [0] * len(tbl["times"]))[r] and tbl["frac_ns"][r] < 998:
+                ns = tbl["frac_ns"][r]
+                lo = min(tbl["times"]) - 5
+                twin = []
+                for k, extra in enumerate((0, 1)):
+                    w = {"starting": lo, "ending": sec}
+                    if ns + extra:
+                        w["ending_ns"] = ns + extra
+                    sid = rng.pick(sids)
+                    twin.append({"window": w, "entries": [gen_healthy_entry(rng, sid, tbl)]})
+                taken = {(c["window"] or {}).get("ending") for c in contexts}
+                if sec not in taken:
+                    contexts.extend(twin)
     return {
         "contexts": contexts,
         "window_form": wform,
